@@ -63,8 +63,10 @@ func gen(o hreg.Opts, w *bufio.Writer) error {
 			return "259-520"
 		case n <= 1025:
 			return "521-1025"
+		case n <= 4097:
+			return "1026-4097"
 		default:
-			return ">1025"
+			return ">=65535"
 		}
 	}
 	pivStats := func(seed [32]byte, rounds int, n int) {
@@ -149,6 +151,23 @@ func gen(o hreg.Opts, w *bufio.Writer) error {
 				}
 			}
 		}
+	}
+	// A2. lists whose pivot / position windows exceed 8 and 16 bits (window = position >> 8), and degenerate seeds
+	for i, n := range []int{65535, 65536, 65537, 70001} {
+		list(n, 1+i/3, seeds[i%nseeds])
+	}
+	if o.Thorough() {
+		list(1<<19+1, 2, seeds[0])
+	}
+	var zeroSeed, ffSeed [32]byte
+	for i := range ffSeed {
+		ffSeed[i] = 0xff
+	}
+	for _, n := range []int{1, 2, 9, 256, 257, 513} {
+		list(n, 10, zeroSeed)
+		list(n, 90, ffSeed)
+		idx(min(n, 300), 10, zeroSeed)
+		idx(min(n, 300), 3, ffSeed)
 	}
 	// B. per-index functions on all indices of all sizes <= 300
 	for n := 1; n <= 300; n++ {
